@@ -3,11 +3,15 @@ import IbModel.Model.Window
 /-!
 Driver handlers for C13.
 
-* `TUMBLE <ts> <size> <off>` ↦ `W <start> <end>` | `PANIC`
+* `TUMBLE <ts> <size> <off>` ↦ `W <start> <end>` | `PANIC`   (`tumble`: current code, overflow-checking build)
+* `TUMBLE-WRAP …` (`tumbleWrapping`: current code, release arithmetic), `TUMBLE-LEGACY …` (`Legacy.tumble`:
+  pre-fix code, overflow-checking), `TUMBLE-LEGACY-WRAP …` (`Legacy.tumbleWrapping`) — same answer format; the
+  harness compiles the text of `src/window.rs` (current / pre-fix revision from git) under those profiles
 * `WCMP <s1> <e1> <s2> <e2>` ↦ `<T|F> <LT|EQ|GT> <T|F>` (`==`, `cmp`, hash consistent with `==`)
-* `WGROUP <kbw|gbw|kkbw|gbkw> <size> <off> <seq|par:T:P> <d|t|a> <rows>` ↦ `OK <rows>` | `PANIC`
-  (row syntax: see `harness/src/c13.rs`). Grouped answers are canonicalised exactly like the harness
-  canonicalises the real output: groups sorted by key, group contents sorted.
+* `WGROUP <kbw|gbw|kkbw|gbkw> <size> <off> <seq|par:T:P|par:T:none:EFF> <d|t|a> <rows>` ↦ `OK <rows>` | `PANIC`
+  (row syntax: see `harness/src/c13.rs`; the model never answers `ERR …`). Grouped answers are canonicalised
+  exactly like the harness canonicalises the real output: groups sorted by key (hash-map order is not
+  modelled), group CONTENTS left in the order produced (input order — clause 2 of `groupByWindow_exact`).
 -/
 namespace IB.D13
 open IB.Wire IB.Window
@@ -17,27 +21,22 @@ def u64? (s : String) : Option Nat :=
   | some n => if n < U64 then some n else none
   | none => none
 
-def handleTumble : List String → String
+def tumbleWith (f : Nat → Nat → Nat → Option Window) : List String → String
   | [ts, size, off] =>
     match u64? ts, u64? size, u64? off with
     | some ts, some size, some off =>
-      match tumble ts size off with
+      match f ts size off with
       | some w => s!"W {w.start} {w.stop}"
       | none => "PANIC"
     | _, _, _ => "BAD-OP"
   | _ => "BAD-OP"
 
-/-- the pinned-commit code (kept so that the legacy model can be replayed against an old checkout) -/
-def handleTumbleLegacy : List String → String
-  | [ts, size, off] =>
-    match u64? ts, u64? size, u64? off with
-    | some ts, some size, some off =>
-      match Legacy.tumble ts size off with
-      | some w => s!"W {w.start} {w.stop}"
-      | none => "PANIC"
-    | _, _, _ => "BAD-OP"
-  | _ => "BAD-OP"
-
+def handleTumble : List String → String := tumbleWith tumble
+/-- the current code under release arithmetic -/
+def handleTumbleWrap : List String → String := tumbleWith tumbleWrapping
+/-- the pre-fix code, overflow-checking build / release arithmetic -/
+def handleTumbleLegacy : List String → String := tumbleWith Legacy.tumble
+def handleTumbleLegacyWrap : List String → String := tumbleWith Legacy.tumbleWrapping
 
 /-- `key:ts:val` -/
 def krow? (s : String) : Option (Int × Timestamped Int) :=
@@ -48,12 +47,18 @@ def krow? (s : String) : Option (Int × Timestamped Int) :=
 def rows? {α : Type} (p : String → Option α) (s : String) : Option (List α) :=
   if s == "-" then some [] else (s.splitOn ",").mapM p
 
-/-- `seq` ↦ one partition holding everything; `par:T:P` ↦ `exec_par`'s split of the source -/
+/-- `seq` ↦ one partition holding everything; `par:T:P` ↦ `exec_par`'s split of the source into `P`
+    (`Some(P)`, 0 included); `par:T:none:EFF` ↦ the split into `EFF`, the count the real planner/runner
+    resolved `None` to (the answer does not depend on it: `groupByWindow_seq_eq_par`) -/
 def parts? {α : Type} (mode : String) (xs : List α) : Option (List (List α)) :=
   if mode == "seq" then some [xs]
   else match mode.splitOn ":" with
     | ["par", t, p] =>
       match parseNat? t, parseNat? p with
+      | some _, some p => some (sourceParts xs p)
+      | _, _ => none
+    | ["par", t, "none", eff] =>
+      match parseNat? t, parseNat? eff with
       | some _, some p => some (sourceParts xs p)
       | _, _ => none
     | _ => none
@@ -65,7 +70,6 @@ def dots (vs : List Int) : String := ".".intercalate (vs.map toString)
 
 def leW (a b : Window) : Bool := a.start < b.start || (a.start == b.start && a.stop ≤ b.stop)
 def leKW (a b : Int × Window) : Bool := a.1 < b.1 || (a.1 == b.1 && leW a.2 b.2)
-def sortInts (vs : List Int) : List Int := vs.mergeSort (fun a b => decide (a ≤ b))
 
 /-- `ts:val` as a raw source row -/
 def rawRow? (s : String) : Option (Nat × Int) :=
@@ -77,7 +81,7 @@ def showRows (rs : List (Window × Int)) : String :=
   "OK " ++ joinOrDash (rs.map (fun r => s!"{showW r.1}:{r.2}"))
 
 def showGroups (gs : List (Window × List Int)) : String :=
-  let gs := (gs.map (fun g => (g.1, sortInts g.2))).mergeSort (fun a b => leW a.1 b.1)
+  let gs := gs.mergeSort (fun a b => leW a.1 b.1)
   "OK " ++ joinOrDash (gs.map (fun g => s!"{showW g.1}:{dots g.2}"))
 
 /-- unkeyed ops over source partitions of raw `(ts, val)` rows; `src` selects the helper that builds
@@ -87,9 +91,9 @@ def unkeyed (op src : String) (size off : Nat) (parts : List (List (Nat × Int))
     let tparts : List (List (Timestamped Int)) :=
       if src == "d" then parts.map (fun p => p.map (fun r => ⟨r.1, r.2⟩)) else parts.map toTimestamped
     if op == "kbw" then
-      match mapAll (keyByWindow size off) tparts with
+      match keyByWindowPar size off tparts with
       | none => "PANIC"
-      | some ps => showRows ps.flatten
+      | some rs => showRows rs
     else
       match groupByWindow size off tparts with
       | none => "PANIC"
@@ -97,9 +101,9 @@ def unkeyed (op src : String) (size off : Nat) (parts : List (List (Nat × Int))
   else if src == "a" then
     let tparts : List (List (Timestamped (Nat × Int))) := parts.map (attachTimestamps Prod.fst)
     if op == "kbw" then
-      match mapAll (keyByWindow size off) tparts with
+      match keyByWindowPar size off tparts with
       | none => "PANIC"
-      | some ps => showRows (ps.flatten.map (fun r => (r.1, r.2.2)))
+      | some rs => showRows (rs.map (fun r => (r.1, r.2.2)))
     else
       match groupByWindow size off tparts with
       | none => "PANIC"
@@ -125,34 +129,39 @@ def handleWGroup : List String → String
           | none => "BAD-OP"
           | some parts =>
             if op == "kkbw" then
-              match mapAll (keyByKeyAndWindow size off) parts with
+              match keyByKeyAndWindowPar size off parts with
               | none => "PANIC"
-              | some ps => "OK " ++ joinOrDash (ps.flatten.map (fun r => s!"{r.1.1}@{showW r.1.2}:{r.2}"))
+              | some rs => "OK " ++ joinOrDash (rs.map (fun r => s!"{r.1.1}@{showW r.1.2}:{r.2}"))
             else
               match groupByKeyAndWindow size off parts with
               | none => "PANIC"
               | some gs =>
-                let gs := (gs.map (fun g => (g.1, sortInts g.2))).mergeSort (fun a b => leKW a.1 b.1)
+                let gs := gs.mergeSort (fun a b => leKW a.1 b.1)
                 "OK " ++ joinOrDash (gs.map (fun g => s!"{g.1.1}@{showW g.1.2}:{dots g.2}"))
       else "BAD-OP"
     | _, _ => "BAD-OP"
   | _ => "BAD-OP"
 
-/-- `WCMP s1 e1 s2 e2` ↦ `<a == b> <a.cmp(b)> <a == b → hash a == hash b>` -/
+def ordStr : Ordering → String
+  | .lt => "LT" | .eq => "EQ" | .gt => "GT"
+
+/-- `WCMP s1 e1 s2 e2` ↦ `<a == b> <a.cmp(b)> <a == b → hash a == hash b> <a.partial_cmp(b)>` -/
 def handleWCmp : List String → String
   | [s1, e1, s2, e2] =>
     match u64? s1, u64? e1, u64? s2, u64? e2 with
     | some s1, some e1, some s2, some e2 =>
       let a : Window := ⟨s1, e1⟩
       let b : Window := ⟨s2, e2⟩
-      let c := match a.cmpImpl b with
-        | .lt => "LT" | .eq => "EQ" | .gt => "GT"
-      s!"{boolStr (a.eqImpl b)} {c} {boolStr (!(a.eqImpl b) || a.hashWords == b.hashWords)}"
+      let pc := match a.partialCmpImpl b with
+        | some o => ordStr o
+        | none => "NONE"
+      s!"{boolStr (a.eqImpl b)} {ordStr (a.cmpImpl b)} {boolStr (!(a.eqImpl b) || a.hashWords == b.hashWords)} {pc}"
     | _, _, _, _ => "BAD-OP"
   | _ => "BAD-OP"
 
 def handlers : List (String × (List String → String)) :=
-  [("TUMBLE", handleTumble), ("TUMBLE-LEGACY", handleTumbleLegacy), ("WGROUP", handleWGroup),
+  [("TUMBLE", handleTumble), ("TUMBLE-WRAP", handleTumbleWrap), ("TUMBLE-LEGACY", handleTumbleLegacy),
+   ("TUMBLE-LEGACY-WRAP", handleTumbleLegacyWrap), ("WGROUP", handleWGroup),
    ("WCMP", handleWCmp)]
 
 end IB.D13
